@@ -13,6 +13,12 @@ package utxo
 //@ func GenUtxoKeyWithPrefix
 //@   noverify
 //@   pure
+// The key text ("owner_txid_offset") determines the creating transaction and the
+// offset (ASSUMED: owners - base58 addresses - contain no "_").
+// A table key is the table prefix followed by the key text (this is the body of
+// GenUtxoKeyWithPrefix).
+//@ axiom utxoKeyHasTablePrefix: forall a bytes, t bytes, o int :: GenUtxoKeyWithPrefix(a, t, o) == xldgpb.UTXOTablePrefix + GenUtxoKey(a, t, o)
+//@ axiom utxoKeyInjective: forall a1 bytes, t1 bytes, o1 int, a2 bytes, t2 bytes, o2 int :: GenUtxoKeyWithPrefix(a1, t1, o1) == GenUtxoKeyWithPrefix(a2, t2, o2) ==> o1 == o2 && str(t1) == str(t2)
 
 // Sums of the declared amounts (big-endian naturals) of the first k outputs / inputs.
 //@ spec func sumOutTo(tx *xldgpb.Transaction, k int) int = k <= 0 ? 0 : sumOutTo(tx, k - 1) + natOf(tx.TxOutputs[k - 1].Amount)
@@ -41,6 +47,7 @@ package utxo
 //@ func UtxoVM.UpdateUtxoTotal
 //@   property C02
 //@   ensures total_moves_by_delta: old(uv.utxoTotal) != nil && delta != nil ==> sel(bigval, uv.utxoTotal) == old(sel(bigval, uv.utxoTotal)) + (inc ? sel(old(bigval), delta) : 0 - sel(old(bigval), delta)) && uv.utxoTotal == old(uv.utxoTotal)
+//@   ensures [C01] only_the_total_key_is_written: (forall k string :: k != xldgpb.MetaTablePrefix + UTXOTotalKey ==> sel(sel(batchOp, ifacePtr(batch)), k) == sel(sel(old(batchOp), ifacePtr(batch)), k) && sel(sel(batchVal, ifacePtr(batch)), k) == sel(sel(old(batchVal), ifacePtr(batch)), k))
 //@   ensures total_in_batch: sel(bigval, uv.utxoTotal) >= 0 ==> sel(sel(batchVal, ifacePtr(batch)), xldgpb.MetaTablePrefix + UTXOTotalKey) == canonBytes(sel(bigval, uv.utxoTotal))
 
 // Cached balances move by exactly the delta of the output created / spent.
